@@ -199,6 +199,92 @@ def real_approx_eval(t):
 
     return rec(t)
 
+def real_interval_eval(t, prec=200):
+    """Evaluate t to an interval (mpmath.iv) that contains its value.
+
+    This is the rigorous counterpart of real_approx_eval: all rounding is
+    outward, and functions are only applied where they are defined
+    (ConvException otherwise).
+
+    """
+    from mpmath import iv
+
+    def exact(n):
+        n = Fraction(n)
+        return iv.mpf(n.numerator) / iv.mpf(n.denominator)
+
+    def nonzero(x):
+        if x.a <= 0 and x.b >= 0:
+            raise ConvException('real_interval_eval: divisor may be zero')
+        return x
+
+    def rec(t):
+        if t.is_number():
+            return exact(t.dest_number())
+        elif t.is_comb('of_nat', 1):
+            return exact(nat.nat_eval(t.arg))
+        elif t.is_comb('of_int', 1):
+            return exact(integer.int_eval(t.arg))
+        elif t.is_plus():
+            return rec(t.arg1) + rec(t.arg)
+        elif t.is_minus():
+            return rec(t.arg1) - rec(t.arg)
+        elif t.is_uminus():
+            return -rec(t.arg)
+        elif t.is_times():
+            return rec(t.arg1) * rec(t.arg)
+        elif t.is_divides():
+            return rec(t.arg1) / nonzero(rec(t.arg))
+        elif t.is_real_inverse():
+            return 1 / nonzero(rec(t.arg))
+        elif t.is_nat_power():
+            return rec(t.arg1) ** nat.nat_eval(t.arg)
+        elif t.is_real_power():
+            x, p = rec(t.arg1), rec(t.arg)
+            if not x.a > 0:
+                raise ConvException('real_interval_eval: base of real power must be positive')
+            return iv.exp(p * iv.log(x))
+        elif t == pi:
+            return +iv.pi
+        elif t.is_comb() and t.fun in (sqrt, sin, cos, tan, cot, sec, csc, log, exp, hol_abs):
+            f, x = t.fun, rec(t.arg)
+            if f == sqrt:
+                if not x.a >= 0:
+                    raise ConvException('real_interval_eval: sqrt of a negative number')
+                return iv.sqrt(x)
+            elif f == log:
+                if not x.a > 0:
+                    raise ConvException('real_interval_eval: log of a non-positive number')
+                return iv.log(x)
+            elif f == exp:
+                return iv.exp(x)
+            elif f == sin:
+                return iv.sin(x)
+            elif f == cos:
+                return iv.cos(x)
+            elif f == tan:
+                return iv.sin(x) / nonzero(iv.cos(x))
+            elif f == cot:
+                return iv.cos(x) / nonzero(iv.sin(x))
+            elif f == sec:
+                return 1 / nonzero(iv.cos(x))
+            elif f == csc:
+                return 1 / nonzero(iv.sin(x))
+            else:
+                return abs(x)
+        else:
+            raise ConvException('real_interval_eval: %s' % str(t))
+
+    old_prec = iv.prec
+    iv.prec = prec
+    try:
+        res = rec(t)
+        return (res.a, res.b)
+    except (ValueError, ZeroDivisionError, OverflowError, ArithmeticError) as e:
+        raise ConvException('real_interval_eval: %s' % str(e))
+    finally:
+        iv.prec = old_prec
+
 @register_macro('real_eval')
 class real_eval_macro(Macro):
     """Simplify all arithmetic operations."""
@@ -721,9 +807,11 @@ def convert_to_poly(t):
         base = convert_to_poly(t.arg1)
         power = convert_to_poly(t.arg)
         if base.is_constant() and power.is_constant():
-            return poly.constant(Fraction(base.get_constant()) ** Fraction(power.get_constant()))
-        else:
-            return poly.singleton(t)
+            b, p = Fraction(base.get_constant()), Fraction(power.get_constant())
+            if p.denominator == 1 and (b != 0 or p >= 0):
+                # Only integer exponents give a rational value.
+                return poly.constant(b ** p.numerator)
+        return poly.singleton(t)
     else:
         return poly.singleton(t)
 
